@@ -6,6 +6,8 @@ import (
 	"context"
 
 	restdaemon "github.com/attestantio/go-block-relay/services/daemon/rest"
+	builderapiv1 "github.com/attestantio/go-builder-client/api/v1"
+	builderspec "github.com/attestantio/go-builder-client/spec"
 	consensusclient "github.com/attestantio/go-eth2-client"
 	"github.com/attestantio/go-eth2-client/api"
 	apiv1 "github.com/attestantio/go-eth2-client/api/v1"
@@ -13,8 +15,10 @@ import (
 	"github.com/attestantio/vouch/internal/vnd"
 	"github.com/attestantio/vouch/internal/vstub"
 	"github.com/attestantio/vouch/services/blockrelay"
+	v2 "github.com/attestantio/vouch/services/blockrelay/v2"
 	nullmetrics "github.com/attestantio/vouch/services/metrics/null"
 	"github.com/rs/zerolog"
+	"golang.org/x/sync/semaphore"
 )
 
 // startupDaemons counts the REST daemons the constructor asked for.
@@ -31,6 +35,38 @@ type startupValidators struct{}
 
 func (startupValidators) Validators(_ context.Context, _ *api.ValidatorsOpts) (*api.Response[map[phase0.ValidatorIndex]*apiv1.Validator], error) {
 	return &api.Response[map[phase0.ValidatorIndex]*apiv1.Validator]{Data: map[phase0.ValidatorIndex]*apiv1.Validator{}, Metadata: map[string]any{}}, nil
+}
+
+type relayQuietAccounts struct{ c12Accounts }
+
+// relayNew builds the relay service through New - so that everything the
+// constructor initialises (maps, the registration semaphore, the default
+// configuration) is what the code under test really starts from - while nothing
+// happens yet: during construction the account manager reports a failure, so
+// neither the configuration source is asked nor a registration round made. The
+// harness then puts its own collaborators in place.
+func relayNew(ct *vstub.ChainTime) *Service {
+	quiet := &relayQuietAccounts{c12Accounts{mode: 2}}
+	s, err := New(context.Background(), WithLogLevel(zerolog.Disabled), WithMonitor(&nullmetrics.Service{}),
+		WithMajordomo(&c12Majordomo{outcome: docFetchError}), WithScheduler(&vstub.Scheduler{}), WithListenAddress("localhost:0"), WithChainTime(ct),
+		WithConfigURL("file:///config.json"), WithFallbackFeeRecipient(c12Fallback), WithFallbackGasLimit(30000000),
+		WithAccountsProvider(c09AccountsByKey{}), WithValidatorsProvider(startupValidators{}), WithValidatingAccountsProvider(quiet),
+		WithValidatorRegistrationSigner(&c11Signer{failFor: map[uint64]bool{}}),
+		WithReleaseVersion("1.2.3"), WithBuilderBidProvider(&c12Bids{}), WithBuilderConfigs(map[phase0.BLSPubKey]*blockrelay.BuilderConfig{}))
+	if err != nil && !vnd.Symbolic() {
+		// native replay only: the real REST daemon could not listen in this sandbox; fall back to
+		// what the constructor would have built (the engine, which decides, never takes this branch)
+		return &Service{chainTime: ct, majordomo: &c12Majordomo{outcome: docFetchError}, configURL: "file:///config.json",
+			fallbackFeeRecipient: c12Fallback, fallbackGasLimit: 30000000, accountsProvider: c09AccountsByKey{},
+			validatingAccountsProvider: quiet, validatorRegistrationSigner: &c11Signer{failFor: map[uint64]bool{}},
+			latestValidatorRegistrations: map[phase0.BLSPubKey]phase0.Root{}, signedValidatorRegistrations: map[phase0.Root]*builderapiv1.SignedValidatorRegistration{},
+			builderBidsCache: map[string]map[string]*builderspec.VersionedSignedBuilderBid{}, executionConfig: &v2.ExecutionConfig{Version: 2},
+			activitySem: semaphore.NewWeighted(1), builderBidProvider: &c12Bids{}, builderConfigs: map[phase0.BLSPubKey]*blockrelay.BuilderConfig{},
+			controlledValidators: map[phase0.BLSPubKey]struct{}{}, releaseVersion: "1.2.3"}
+	}
+	vnd.Assert(err == nil && s != nil, "C12.new.accepted")
+	vnd.Quiesce()
+	return s
 }
 
 // VerifC12_NewThenUse: the relay service as main builds it - through New,
@@ -50,7 +86,7 @@ func VerifC12_NewThenUse() {
 	vnd.Assume(ct.CurrentSlot() < 1<<26) // instants stay within int64 nanoseconds
 	node := &c11Node{name: "node-a"}
 	s, err := New(context.Background(), WithLogLevel(zerolog.Disabled), WithMonitor(&nullmetrics.Service{}),
-		WithMajordomo(m), WithScheduler(sched), WithListenAddress("localhost:18550"), WithChainTime(ct),
+		WithMajordomo(m), WithScheduler(sched), WithListenAddress("localhost:0"), WithChainTime(ct),
 		WithConfigURL("file:///config.json"), WithFallbackFeeRecipient(c12Fallback), WithFallbackGasLimit(30000000),
 		WithAccountsProvider(c09AccountsByKey{}), WithValidatorsProvider(startupValidators{}), WithValidatingAccountsProvider(a),
 		WithValidatorRegistrationSigner(&c11Signer{failFor: map[uint64]bool{}}),
